@@ -91,13 +91,22 @@ func c18Selector(s string) metav1.LabelSelector {
 
 var c18Selectors = []string{"zone=a", "zone=a", "zone=b", "tier=a", "zone in (a,b)", "zone exists", "tier notin (a)", "all", "bad", "bad-op", "bad-value"}
 
+// c18Name: short names, and now and then one longer than a label value may be (63 characters): object names go up to
+// 253. (The simulated API does not validate label values; a real server would refuse a pod labelled with such a name.)
+func c18Name(rt *rapid.T, i int) string {
+	if rapid.IntRange(0, 5).Draw(rt, fmt.Sprintf("s%d-longname", i)) == 0 {
+		return fmt.Sprintf("set-%c-%s", 'a'+i, strings.Repeat("x", 64))
+	}
+	return fmt.Sprintf("set-%c", 'a'+i)
+}
+
 func c18Draw(rt *rapid.T) c18Case {
 	k := c18Case{}
 	n := rapid.IntRange(1, 4).Draw(rt, "nSettings")
 	for i := 0; i < n; i++ {
 		k.Settings = append(k.Settings, c18Setting{
 			NS:        rapid.SampledFrom([]string{"ns1", "ns1", "ns1", "ns2"}).Draw(rt, fmt.Sprintf("s%d-ns", i)),
-			Name:      fmt.Sprintf("set-%c", 'a'+i),
+			Name:      c18Name(rt, i),
 			CreatedAt: rapid.IntRange(0, 2).Draw(rt, fmt.Sprintf("s%d-created", i)),
 			Selector:  rapid.SampledFrom(c18Selectors).Draw(rt, fmt.Sprintf("s%d-sel", i)),
 			Ref:       rapid.SampledFrom([]string{"foo", "foo", "foo", "bar", "", "nil"}).Draw(rt, fmt.Sprintf("s%d-ref", i)),
